@@ -34,6 +34,18 @@ class Arg:
         return f'Arg({self.key!r},{self.cid})'
 
 
+class EqArg(Arg):
+    """Arguments that all compare equal and hash alike although they print differently (as 1, 1.0 and True do):
+    the key of a request is its str(), not its identity under ==."""
+    __slots__ = ()
+
+    def __eq__(self, other):
+        return isinstance(other, Arg)
+
+    def __hash__(self):
+        return 7
+
+
 class _LookupFailed(KeyError):
     pass
 
@@ -103,8 +115,13 @@ def gen(rng, flavour):
             c['block'] = rng.choice([BT / 2, BT + cfg['bdur'], R + BT / 4 if R else 2 * BT, R / 2 if R else BT, 2 * R + 3 * BT])
         cfg['blocked_loop'] = True
     # the batch function may fail *after* it has yielded every result (while closing its connection, say)
-    if flavour == 'c04' and rng.random() < 0.4:
+    if flavour in ('c04', 'c11') and rng.random() < 0.4:
         cfg['exc_class'] = rng.choice(sorted(EXC_CLASSES))
+    if flavour in ('c04', 'c11') and rng.random() < 0.15:
+        cfg['args_equal'] = True
+    if flavour == 'c11' and rng.random() < 0.3:
+        for c in rng.sample(calls, min(len(calls), rng.randint(1, 2))):
+            c['again'] = True
     cfg['raise_end'] = rng.choice([None, None, None, 'HarnessError', 'ConnectionError', 'TimeoutError']) \
         if flavour in ('c04', 'c10') else None
     muts = []
@@ -163,7 +180,9 @@ class BatcherHarness:
                             continue
                         if bh == 'raise':
                             emit('braise', b, u)
-                            raise HarnessError('batch', b, u)
+                            err = EXC_CLASSES[cfg.get('exc_class', 'HarnessError')]('batch', b, u)
+                            err.hx = ('batch', b, u)
+                            raise err
                         if bh == 'unknown':
                             emit('yield', b, f'unknown-{u}', 'val', u)
                             yield f'unknown-{u}', ('unknown', b, u)
@@ -221,12 +240,12 @@ class BatcherHarness:
                         return 'K' + c['key'] if cfg['explicit_key'] == 'prefixed' else c['key']
 
                     def invoke(c, cid):
-                        a = Arg(c['key'], cid)
+                        a = (EqArg if cfg.get('args_equal') else Arg)(c['key'], cid)
                         if cfg['explicit_key']:
                             return bat(a, key=eff_key(c))
                         return bat(a)
 
-                    async def call(cid, c):
+                    async def call(cid, c, first=True):
                         beh[cid] = c['beh']
                         if c['t']:
                             await aio.sleep(c['t'])
@@ -265,6 +284,9 @@ class BatcherHarness:
                             emit('ret', cid, 'cancelled', me.cancelling() > 0)
                         except BaseException as e:     # noqa
                             emit('ret', cid, 'other', (type(e).__name__, str(e)[:80]))
+                        if first and c.get('again'):
+                            # the answered caller asks for the same key again at once (no suspension point in between)
+                            await call(500 + cid, dict(c, t=0, block=None, again=False), first=False)
 
                     ts = []
                     for cid, c in enumerate(prog['calls']):
@@ -638,7 +660,17 @@ def judge_c11(v: BatView, res: CaseResult, prog):
             inside = [o for o in origs if o[1] - EPS <= tc and (o[2] is None or tc < o[2] + R - M)]
             after_all = all(o[2] is not None and tc > o[2] + R + M for o in origs)
             is_orig = cid in v.where
-            if inside:
+            if 500 <= cid < 1000 and R == 0 and not prog['cfg'].get('blocked_loop') and (cid - 500) in v.where:
+                # retention_timeout = 0: nothing is remembered once the original caller has been answered - and this
+                # call is made by that very caller (the one whose call was batched), right after its answer
+                st['re_request_right_after_answer_no_retention'] += 1
+                first_answer = v.rets.get(cid - 500)
+                # (it may legitimately share a *newer* request for the key that is pending by now, never the old outcome)
+                if not is_orig and r is not None and first_answer is not None and outcome_of(r[1]) == outcome_of(first_answer[1]) \
+                        and outcome_of(r[1])[1] is not None:
+                    res.violate('C11:stale-result-after-window', 'retention_timeout=0: a caller that asked again right after it was '
+                                'answered was served from memory instead of a new computation', cid=cid, key=key)
+            elif inside:
                 st['call_inside_window'] += 1
                 o = inside[-1]
                 if is_orig:
